@@ -213,9 +213,10 @@ impl G {
             G::SpaceList(items) if items.len() >= 2 => items.iter().map(|i| i.opm(220, false)).collect::<Vec<_>>().join(" "),
             G::CommaList(items) if items.len() >= 2 => items.iter().map(|i| i.opm(900, false)).collect::<Vec<_>>().join(", "),
             G::Nested(e) => format!("{{ {} }}", e.min()),
-            G::Cond(op, c, a) => format!("{} {} {}", c.opm(700, false), op, a.opm(700, false)),
+            // `?>` / `!>` group left-to-right: a conditional in condition position needs no brackets
+            G::Cond(op, c, a) => format!("{} {} {}", c.opm(700, true), op, a.opm(700, false)),
             G::Chain(arms, default) => {
-                let mut parts: Vec<String> = arms.iter().map(|(op, c, a)| format!("{} {} {}", c.opm(700, false), op, a.opm(700, false))).collect();
+                let mut parts: Vec<String> = arms.iter().map(|(op, c, a)| format!("{} {} {}", c.opm(700, true), op, a.opm(700, false))).collect();
                 if let Some(d) = default {
                     parts.push(d.opm(700, false));
                 }
@@ -831,7 +832,8 @@ impl<'a> Gen<'a> {
                 G::Atom(s)
             }
             18 => {
-                let target = *self.rng.pick(&["\"\"", "'x'", "0", "(,)", ":s", "#0", "#\"\"", "$?", "()"]);
+                // `"a".0` is a Char value, `'a'.0` a Byte value: casts that have no result for most numbers
+                let target = *self.rng.pick(&["\"\"", "'x'", "0", "(,)", ":s", "#0", "#\"\"", "$?", "()", "(\"a\".0)", "('a'.0)", "(\"a\".0)", "('a'.0)", "1.5"]);
                 G::bin("~#", self.expr(budget - 1), G::Atom(target.to_string()))
             }
             19 => {
